@@ -44,6 +44,8 @@ def build(e):
   if 'arr' in e:
     import numpy as np  # pylint: disable=g-import-not-at-top
     return np.array(e['arr'])
+  if 'b' in e:
+    return e['b'].encode('latin-1')
   k = e['k']
   if k == 'call':
     fn = lf.trace(getattr(targets, e['fn']))
@@ -119,6 +121,8 @@ class Model:
     if 'arr' in e:
       import numpy as np  # pylint: disable=g-import-not-at-top
       return np.array(e['arr'])
+    if 'b' in e:
+      return e['b'].encode('latin-1')
     cached = e.get('cache', False)
     key = cache_key(e)
     if cached:
@@ -176,7 +180,7 @@ def _same_value(a, b):
 
 
 def _depth(e):
-  if 'c' in e or 'arr' in e:
+  if 'c' in e or 'arr' in e or 'b' in e:
     return 0
   subs = [e.get('obj')] + list(e.get('args', [])) + [v for _, v in e.get('kwargs', [])]
   return 1 + max([_depth(s) for s in subs if s is not None] or [0])
@@ -362,7 +366,10 @@ def strat_history(tier):
     depth = draw(st.integers(1, 4))
     kworder = st.builds(lambda a, b, names, c: {'k': 'call', 'fn': 'kw_names', 'args': [], 'kwargs': [[names[0], a], [names[1], b]], 'cache': c},
                         _int(1), _int(1), st.sampled_from([['zeta', 'alpha'], ['b', 'a'], ['a', 'b'], ['y', 'x']]), st.booleans())
-    top = st.one_of(_int(depth), _int(depth), _list(depth), _inst(depth), _falsy(depth), kworder,
+    # plain bytes arguments (also ones that happen to be valid pickles) reach the callable untouched
+    bytes_arg = st.builds(lambda b, c: {'k': 'call', 'fn': 'counted_len', 'args': [{'b': b}], 'cache': c},
+                          st.sampled_from(['abc', 'N.', '', '\x80\x04N.', 'I1\n.']), st.booleans())
+    top = st.one_of(_int(depth), _int(depth), _list(depth), _inst(depth), _falsy(depth), kworder, bytes_arg,
                     st.builds(lambda a, r: {'k': 'call', 'fn': 'counted_add', 'args': [a, r]}, _int(1), _raising()))
     exprs = draw(st.lists(top, min_size=1, max_size=4))
     op = st.one_of(st.tuples(st.just('make'), st.integers(0, 3)).map(list), st.tuples(st.just('make'), st.integers(0, 3)).map(list),
